@@ -360,15 +360,23 @@ where
                 .unknown_source()
         })?;
 
-        if max_cycles < cycles {
+        // the cycles the suspended group had consumed before it was suspended count against
+        // `max_cycles` as well: the limit handed to the resumed run only covers what is left
+        let suspended_cycles = snap
+            .state
+            .as_ref()
+            .map(|state| state.total_cycles)
+            .unwrap_or(0);
+        let consumed = wrapping_cycles_add(cycles, suspended_cycles, current_group)?;
+        if max_cycles < consumed {
             return Err(ScriptError::ExceededMaximumCycles(max_cycles)
                 .source(current_group)
                 .into());
         }
 
         // continue snapshot current script
-        // max_cycles - cycles checked
-        match self.verify_group_with_chunk(current_group, max_cycles - cycles, &snap.state) {
+        // max_cycles - consumed checked
+        match self.verify_group_with_chunk(current_group, max_cycles - consumed, &snap.state) {
             Ok(ChunkState::Completed(used_cycles, _consumed_cycles)) => {
                 cycles = wrapping_cycles_add(cycles, used_cycles, current_group)?;
             }
